@@ -34,6 +34,7 @@ type Prog struct {
 	errWrap   map[*types.Func]int
 	ren       *renameState
 
+	funcValues  map[types.Object]*types.Func // locals bound once to a function / method value (anchors.go)
 	inlineNotes []string // new helper functions read as part of their callers (inline.go)
 	inlinedAway map[*types.Func]bool
 	newHelpers  map[*types.Func]bool // functions the reference tree did not have (inline.go)
